@@ -32,6 +32,9 @@ type c08 struct {
 
 const nameAlphabet = "./\\a\""
 
+var nameTokens = []string{".", "..", "/", "a", "%2e", "%2E", "%2f", "%2F", "%5c", "%252e", "%c0%ae", "%00",
+	"\u2024", "\uff0e", "\uff0f", "\u2215", "~", "$HOME", "${PWD}", "+"}
+
 func init() {
 	runners["C08"] = func(tier string) runner {
 		c := &c08{tier: tier}
@@ -55,6 +58,30 @@ func init() {
 			}
 		}
 		rec("", L)
+		// ... and all names of up to T tokens from a dictionary of other spellings of dot, slash and
+		// backslash that some layer between the INCLUDE line and the disk might decode or expand
+		T := 3
+		if tier == "thorough" {
+			T = 4
+		}
+		have := map[string]bool{}
+		for _, n := range c.names {
+			have[n] = true
+		}
+		var rec2 func(prefix string, left int)
+		rec2 = func(prefix string, left int) {
+			if prefix != "" && !have[prefix] {
+				have[prefix] = true
+				c.names = append(c.names, prefix)
+			}
+			if left == 0 {
+				return
+			}
+			for _, tok := range nameTokens {
+				rec2(prefix+tok, left-1)
+			}
+		}
+		rec2("", T)
 		c.nName = (len(c.names) + nameChunk - 1) / nameChunk
 		c.st.Distinct = map[uint64]bool{}
 		return c
@@ -431,7 +458,7 @@ func (c *c08) checkFS(cs *Case, record bool) *Case {
 	label := ""
 	switch mode {
 	case 0: // file-system state: the target is absent / a directory / empty
-		switch kindSel % 3 {
+		switch kindSel % 4 {
 		case 0:
 			delete(q.Files, target.path)
 			label = "state-absent"
@@ -442,6 +469,10 @@ func (c *c08) checkFS(cs *Case, record bool) *Case {
 		case 2:
 			q.set(target.path, nil)
 			label = "state-empty"
+		case 3:
+			// a FIFO or /proc-like file: stat says size 0, reading delivers the text
+			q.Special = append(q.Special, target.path)
+			label = "state-special"
 		}
 	case 1: // errno fault at that call
 		kinds := []int{simrt.FEnoent, simrt.FEisdir, simrt.FEacces, simrt.FEio, simrt.FEloop, simrt.FEnametoolong, simrt.FEnotdir}
@@ -482,7 +513,7 @@ func (c *c08) checkFS(cs *Case, record bool) *Case {
 		v.Plan = plan
 		return v
 	}
-	mustReject := (mode == 0 && kindSel%3 != 2) || mode == 1
+	mustReject := (mode == 0 && kindSel%4 < 2) || mode == 1
 	if mode == 1 {
 		fired := 0
 		for k := simrt.FEnoent; k <= simrt.FEnotdir; k++ {
@@ -495,7 +526,13 @@ func (c *c08) checkFS(cs *Case, record bool) *Case {
 		v.Plan = plan
 		return v
 	}
-	if mode == 0 && kindSel%3 == 2 && ref.Accepted {
+	if mode == 0 && kindSel%4 == 3 {
+		// the text is all there: nothing may change
+		if same, what := ref.Same(&got); !same {
+			return violation(cs, "special-file-changes-result", what, fmt.Sprintf("the include target %s reports size 0 to stat (FIFO, /proc-like) but delivers its whole text when read; the result differs from the one with a regular file: field %s\n regular: accepted=%v msg=%q\n special: accepted=%v msg=%q", target.path, what, ref.Accepted, ref.Msg, got.Accepted, got.Msg))
+		}
+	}
+	if mode == 0 && kindSel%4 == 2 && ref.Accepted {
 		// an empty file is the empty text: must still be a clean verdict (no crash, checked above)
 		_ = got
 	}
